@@ -900,7 +900,10 @@ class SK(object):
             raise Violation('SK2', 'unexpected keyword arguments %s for %s' % (sorted(kw), fi.key))
         if a.vararg:
             env[a.vararg.arg] = tuple(args[len(params):])
-        if any(isinstance(x, (ast.Yield, ast.YieldFrom)) for x in _walk_own(fn)):
+        isgen = getattr(fn, '_sa_isgen', None)
+        if isgen is None:
+            isgen = fn._sa_isgen = any(isinstance(x, (ast.Yield, ast.YieldFrom)) for x in _walk_own(fn))
+        if isgen:
             self.depth -= 1
             return GenObj(self, fn, env)          # a generator function: its body runs lazily, one `yield` at a time
         try:
@@ -1254,7 +1257,7 @@ def run_case(m, fkey, args, kw, abstracted=None, post=None):
     return None
 
 
-def explore(make_call, max_paths=4096):
+def explore(make_call, max_paths=4096, stop_on_failure=False):
     """enumerate every outcome of the undecidable float comparisons (fork points) of one case by decision replay (DFS).
     make_call(sk) runs the case on a fresh interpreter and returns its result or raises Violation.
     -> (number of paths, first failure (rule, msg, decisions) or None, truncated?)"""
@@ -1269,6 +1272,8 @@ def explore(make_call, max_paths=4096):
         res, trace = make_call(prefix)
         if res is not None and first is None:
             first = (res[0], res[1], list(trace))
+            if stop_on_failure:
+                return n, first, False          # one failing path settles the case: the remaining forks are not needed for the verdict
         for i in range(len(prefix), len(trace)):
             if trace[i]:
                 stack.append(trace[:i] + [False])
